@@ -205,3 +205,40 @@ contract("usim._basics.streams.Channel.__aiter__",
          on_exit=[DEAD_NEW, "forall(anything, lambda k: implies(mine(k) and exact_class(k, object), not (k in self._consumer_buffers)))"],
          guarantee=[G_CHANNEL],
          props=["C11"])
+
+
+# ---- Queue: the thin wrappers around _await_message (C10, C20)
+AWAIT_MESSAGE = dict(
+    requires=["loop.activity is me", "self._read_mutex._owner is not me"],
+    suspends=(1, None),
+    ensures=["len(at_last_suspension(self._buffer)) > 0",
+             "result is at_last_suspension(self._buffer)[0]",
+             "self._buffer == at_last_suspension(self._buffer)[1:]",
+             "self._read_mutex._owner is not me"],
+    raises={"StreamClosed": dict(ensures=["self._closed", "len(self._buffer) == 0",
+                                          "self._buffer == at_last_suspension(self._buffer)",
+                                          "self._read_mutex._owner is not me"])},
+    on_signal=["self._buffer == at_last_suspension(self._buffer)", "self._read_mutex._owner is not me"],
+    on_exit=[DEAD_NEW])
+contract("usim._basics.streams.Queue.__await__",
+         params={"self": REF("Queue")}, returns=ANY,
+         inv_scope=["Notification", "Interrupt.parked_or_scheduled", "Lock", "Interrupt.live_lock_wakeup_is_owner", "Queue"],
+         props=["C10", "C20"], **AWAIT_MESSAGE)
+
+# async for item in queue: every step hands out exactly one head item (and yields to the others at least once);
+# the iteration ends only when the queue is closed and drained
+contract("usim._basics.streams.Queue.__aiter__",
+         params={"self": REF("Queue")},
+         inv_scope=["Notification", "Interrupt.parked_or_scheduled", "Lock", "Interrupt.live_lock_wakeup_is_owner", "Queue"],
+         requires=["loop.activity is me", "self._read_mutex._owner is not me"],
+         suspends=(1, None),
+         step_ensures=["len(at_last_suspension(self._buffer)) > 0",
+                       "result is at_last_suspension(self._buffer)[0]",
+                       "self._buffer == at_last_suspension(self._buffer)[1:]",
+                       "self._read_mutex._owner is not me"],
+         step_suspends=(1, None),
+         ensures=["self._closed", "len(self._buffer) == 0"],
+         loop_invariants={"while#1": ["loop.activity is me", "self._read_mutex._owner is not me"]},
+         on_signal=[], on_close=[],
+         on_exit=[DEAD_NEW],
+         props=["C10", "C20"])
